@@ -52,6 +52,7 @@ def families(tier):
     g.add('C05/tok/unevaluated', 'h_tok', 0)
     g.add('C05/tok/evaluated', 'h_tok', 1)
     g.add('C05/url/protocol', 'h_url')
-    g.add('C05/regexp/protocol', 'h_regexp')
+    g.add('C05/regexp/protocol', 'h_regexp', 0)
+    g.add('C05/regexp/protocol,flags=im', 'h_regexp', 1)
     fams.append(g)
     return fams
